@@ -14,7 +14,8 @@ Keys == {"ok", "empty", "max", "over"}
 Vals == {"ok", "max", "over"}
 Ends == {"none", "ok"}
 Filters == {"none", "min_mod", "max_mod", "min_create", "max_create"}
-Nested == {"none", "put_ok", "put_emptykey", "put_overkey", "put_overval", "del_emptykey", "del_overkey", "range_ok", "emptyoneof"}
+Nested == {"none", "put_ok", "put_emptykey", "put_overkey", "put_overval", "del_emptykey", "del_overkey", "range_ok", "emptyoneof",
+           "range_neglimit", "range_ko_co", "range_overkey"}
 Branches == {"executed", "other"}
 
 \* the universe of request classes (fields that do not apply to an API are fixed to their neutral class)
@@ -51,7 +52,9 @@ Violations(r) ==
   \cup (IF r.api = "TablesDelete" /\ r.node = "leader" /\ r.table = "unknown" THEN {NonOK} ELSE {})
 
 \* constraints whose outcome the property leaves open: an invalid operation in the branch that is NOT executed
-Open(r) == r.api = "Txn" /\ r.branch = "other" /\ r.nested \in {"put_emptykey", "put_overkey", "put_overval", "del_emptykey", "del_overkey"}
+Open(r) == \/ r.api = "Txn" /\ r.branch = "other" /\ r.nested \in {"put_emptykey", "put_overkey", "put_overval", "del_emptykey", "del_overkey"}
+           \* malformed READS nested in a transaction create no record: refusing or serving them is both admissible (the server must survive)
+           \/ r.api = "Txn" /\ r.nested \in {"range_neglimit", "range_ko_co", "range_overkey"}
 
 Admissible(r) == IF Violations(r) = {} THEN (IF Open(r) THEN {"OK"} \cup NonOK ELSE {"OK"})
                  ELSE UNION Violations(r)
